@@ -180,16 +180,22 @@ void bodyStatus(int, void* a)
         p.setDeviceId((uint16_t) (A.u + d));
         st.update(p);
         API_POINT();
-        InterfacePayload ip;
-        ip.setInterfaceId(A.u * 2 + d);
-        ip.setData(nullptr, 0, nullptr, 0);
-        Packet q;
-        q.setPayload(ip);
-        q.setDeviceId((uint16_t) (A.u + d));
-        st.update(q);
-        API_POINT();
+        // the first device gets two interfaces, each reported twice (lookups that miss, that hit slot 0 and that hit slot 1);
+        // the second device reports no interface
+        for (int r = 0; r < (d == 0 ? 4 : 0); ++r)
+        {
+            InterfacePayload ip;
+            ip.setInterfaceId(A.u * 2 + d + 100 * (r % 2));
+            ip.setMsgTotalRx((uint32_t) r);
+            ip.setData(nullptr, 0, nullptr, 0);
+            Packet q;
+            q.setPayload(ip);
+            q.setDeviceId((uint16_t) (A.u + d));
+            st.update(q);
+            API_POINT();
+        }
     }
-    st.removeDeviceById((uint16_t) A.u);
+    st.removeDeviceById((uint16_t) (A.u + 1));
     API_POINT();
     for (size_t i = 0; i < st.getDeviceStatusCount(); ++i)
     {
